@@ -807,7 +807,7 @@ def propose(lim, bU, bC, bN, rng):
         c0 = c0 or max(100000, 2 * bC)
         c0 += (-(bC + c0)) % lim["trd"]
         fs = int(TR * (bC + c0)) - bU + d
-        return [(fs, c0, 0)]
+        return [(max(fs, 0), c0, 0)]
     for d in (-1, 0, 1):
         V.append((f"single{d:+d}", single(d), 0, 0))
         V.append((f"entryratio{d:+d}", entry_ratio(d), 0, 0))
